@@ -369,3 +369,44 @@ func p384InvalidEncodings(r *core.Rand) [][]byte {
 	}
 	return out
 }
+
+// rebuildType5Large: requests with many VALID elements (copies of an honest one): what work or memory grows faster
+// than the input shows only at size.
+func rebuildType5Large(r *core.Rand, honest []byte) [][]byte {
+	_, k := refVarintDec(honest[3:])
+	if k < 0 || len(honest) < 3+k+32 {
+		return nil
+	}
+	el := honest[3+k : 3+k+32]
+	var out [][]byte
+	for _, n := range []int{600, 2047} {
+		body := bytes.Repeat(el, n)
+		b := append(clone(honest[:3]), refVarintEnc(uint64(len(body)))...)
+		out = append(out, append(b, body...))
+	}
+	return out
+}
+
+// rebuildBatchLarge: generic batches of 1500 valid type-1 and of 1200 valid type-2 requests.
+func rebuildBatchLarge(t1, t2 []byte) (a, b [][]byte) {
+	mk := func(el []byte, n int) []byte {
+		body := bytes.Repeat(el, n)
+		return append(refVarintEnc(uint64(len(body))), body...)
+	}
+	return [][]byte{mk(t1, 1500)}, [][]byte{mk(t2, 1200), mk(append(clone(t1), t2...), 600)}
+}
+
+// rebuildChallenge: TokenChallenges whose origin_info is at its maximal length: only separators, thousands of short
+// names, one name.
+func rebuildChallenge(r *core.Rand) [][]byte {
+	var out [][]byte
+	names := make([]byte, 0, 65535)
+	for len(names)+9 < 65535 {
+		names = append(names, alnum(r, 7)...)
+		names = append(names, ',')
+	}
+	for _, oi := range [][]byte{bytes.Repeat([]byte{','}, 65535), bytes.Repeat([]byte{','}, 20000), names[:len(names)-1], alnum(r, 65535), bytes.Repeat([]byte("a,"), 32767)} {
+		out = append(out, encChallenge(2, "issuer.example", r.Bytes(32), []string{string(oi)}))
+	}
+	return out
+}
